@@ -63,12 +63,16 @@ def build_harness(ck):
             tmp = ck.cxx(name + ".o", [src], flags=["-c"], **kw)
             shutil.move(tmp, obj + ".tmp%d" % os.getpid())
             os.replace(obj + ".tmp%d" % os.getpid(), obj)
-            for f in os.listdir(cache):       # drop the stale objects of the same unit
-                if f.startswith(name + "-") and f != os.path.basename(obj) and f.endswith(".o"):
-                    try:
-                        os.remove(os.path.join(cache, f))
-                    except OSError:
-                        pass
+            # keep the 8 most recent objects of the unit (runs on scratch worktrees share the cache)
+            old = sorted((f for f in os.listdir(cache) if f.startswith(name + "-") and f.endswith(".o")),
+                         key=lambda f: os.path.getmtime(os.path.join(cache, f)), reverse=True)
+            for f in old[8:]:
+                try:
+                    os.remove(os.path.join(cache, f))
+                except OSError:
+                    pass
+        else:
+            os.utime(obj)
         return obj
 
     from concurrent.futures import ThreadPoolExecutor
